@@ -38,6 +38,13 @@ Proof.
   apply Z.pow_pos_nonneg; lia.
 Qed.
 
+Lemma wrap64_over z : W64 <= z < 2 * W64 -> wrap64 z = z - W64.
+Proof.
+  intros. rewrite wrap64_mod. unfold W64 in *.
+  replace z with ((z - 18446744073709551616) + 1 * 18446744073709551616) at 1 by lia.
+  rewrite Z.mod_add by lia. apply Z.mod_small. lia.
+Qed.
+
 (** * 1. FIT *)
 
 (** half-open intervals [a, a+s) on unbounded integers *)
@@ -45,301 +52,250 @@ Definition overlapZ (a1 s1 a2 s2 : Z) : Prop :=
   exists x, a1 <= x < a1 + s1 /\ a2 <= x < a2 + s2.
 Definition containsZ (a s lo hi : Z) : Prop := a <= lo /\ hi <= a + s.
 
+(** fields in the range of their Go types: uint64 address, 24-bit size *)
+Definition fent_typed (e : fent) : Prop := 0 <= fa e < W64 /\ 0 <= fs e < 16777216.
+(** the range of a BIOS startup module stays inside the 64-bit address space *)
 Definition ibb_iv_ok (e : fent) : Prop := 0 <= fa e /\ 0 <= fs e /\ fa e + fs e * 16 < W64.
+Definition all_iv_ok (l : list fent) : Prop := forall e, In e l -> ibb_iv_ok e.
+
+(** ** getFITDataSize *)
+
+Lemma acm_raw_size_range mem e s : acm_raw_size mem e = Ok s -> 0 <= s < W32.
+Proof.
+  unfold acm_raw_size. destruct (_ || _); [discriminate|].
+  destruct (mem_lookup _ mem); [|discriminate]. intros [= <-]. apply wrap32_range.
+Qed.
+
+(** a size that [getFITDataSize] hands out is non-negative and keeps the range below 2^64 *)
+Lemma dsz_ok_inv mem e s : fent_typed e -> dsz mem e = Ok s ->
+  0 <= s /\ fa e + s < W64 /\ (ft e <> T_SACM -> s = fs e * 16).
+Proof.
+  intros (A & S) H. unfold dsz in H.
+  assert (K : forall r, 0 <= r < W64 ->
+            (if wrap64 (fa e + r) <? fa e then Err 3 else Ok r) = Ok s -> 0 <= s /\ fa e + s < W64 /\ r = s).
+  { intros r Hr H1. destruct (Z_lt_le_dec (fa e + r) W64) as [L|L].
+    - rewrite wrap64_small in H1 by lia. destruct (fa e + r <? fa e); [discriminate|]. injection H1 as <-. lia.
+    - rewrite wrap64_over in H1 by (unfold W64 in *; lia).
+      replace (fa e + r - W64 <? fa e) with true in H1 by (unfold W64 in *; lia). discriminate. }
+  destruct (ft e =? T_SACM) eqn:Et.
+  - destruct (acm_raw_size mem e) as [r| | |] eqn:Er; cbn [bind] in H; try discriminate.
+    apply acm_raw_size_range in Er.
+    destruct (K r ltac:(unfold W32, W64 in *; lia) H) as (K1 & K2 & _). repeat split; try assumption. intros; lia.
+  - cbn [bind] in H. destruct (K (fs e * 16) ltac:(unfold W64; lia) H) as (K1 & K2 & K3).
+    repeat split; try assumption. intros _. lia.
+Qed.
+
+Lemma dsz_ibb mem e : ft e = T_IBB -> fent_typed e ->
+  (fa e + fs e * 16 < W64 -> dsz mem e = Ok (fs e * 16)) /\
+  (W64 <= fa e + fs e * 16 -> dsz mem e = Err 3).
+Proof.
+  intros T (A & S). unfold dsz. rewrite T. change (T_IBB =? T_SACM) with false. cbn [bind]. split; intros H.
+  - rewrite wrap64_small by lia. replace (fa e + fs e * 16 <? fa e) with false by lia. reflexivity.
+  - rewrite wrap64_over by (unfold W64 in *; lia).
+    replace (fa e + fs e * 16 - W64 <? fa e) with true by (unfold W64 in *; lia). reflexivity.
+Qed.
+
+(** neither a panic nor an endless loop: every outcome is a value or an error *)
+Definition benign {A} (o : outcome A) : Prop :=
+  match o with Ok _ | Err _ => True | _ => False end.
+
+Lemma dsz_benign mem e : benign (dsz mem e).
+Proof.
+  unfold dsz, acm_raw_size.
+  destruct (ft e =? T_SACM); cbn [bind].
+  - destruct (_ || _); cbn [bind]; [exact I|].
+    destruct (mem_lookup _ mem); cbn [bind]; [|exact I].
+    destruct (_ <? _); exact I.
+  - destruct (_ <? _); exact I.
+Qed.
 
 Section FITProofs.
-Variable dsz : fent -> outcome Z.
+Variable dsz0 : fent -> outcome Z.
 Variable t2 : Z.
-Hypothesis dsz_ok : forall e, ft e = T_IBB \/ ft e = t2 -> dsz e = Ok (fs e * 16).
+Hypothesis dsz0_benign : forall e, benign (dsz0 e).
+(** what an [Ok] of the size function guarantees (instantiated with [dsz_ok_inv]) *)
+Hypothesis dsz0_inv : forall e s, fent_typed e -> dsz0 e = Ok s -> 0 <= s /\ fa e + s < W64.
 
-Lemma overlap_test_sound e1 e2 :
-  ft e1 = T_IBB -> ft e2 = t2 -> ibb_iv_ok e1 -> ibb_iv_ok e2 ->
-  overlap_test dsz e1 e2 = Ok false ->
-  ~ overlapZ (fa e1) (fs e1 * 16) (fa e2) (fs e2 * 16).
+Lemma overlap_test_benign e1 e2 : benign (overlap_test dsz0 e1 e2).
 Proof.
-  intros T1 T2 (A1 & S1 & W1) (A2 & S2 & W2) H.
-  unfold overlap_test in H. rewrite (dsz_ok e2), (dsz_ok e1) in H by auto.
-  cbn [bind] in H. unfold end64 in H.
-  rewrite !wrap64_small in H by lia.
-  injection H as H. intros (x & Hx1 & Hx2).
-  destruct (fa e1 >? fa e2 + fs e2 * 16) eqn:Ea; destruct (fa e2 >? fa e1 + fs e1 * 16) eqn:Eb;
-    cbn in H; try discriminate; lia.
+  unfold overlap_test. pose proof (dsz0_benign e1) as B1. pose proof (dsz0_benign e2) as B2.
+  destruct (dsz0 e1); cbn [bind benign] in *; try exact B1.
+  destruct (dsz0 e2); cbn [bind benign] in *; try exact B2. exact I.
 Qed.
 
-Lemma overlap_test_ok e1 e2 :
-  ft e1 = T_IBB -> ft e2 = t2 -> exists b, overlap_test dsz e1 e2 = Ok b.
+Lemma overlap_test_false e1 e2 : fent_typed e1 -> fent_typed e2 -> overlap_test dsz0 e1 e2 = Ok false ->
+  exists s1 s2, dsz0 e1 = Ok s1 /\ dsz0 e2 = Ok s2 /\ ~ overlapZ (fa e1) s1 (fa e2) s2.
 Proof.
-  intros. unfold overlap_test. rewrite (dsz_ok e2), (dsz_ok e1) by auto. cbn [bind]. eauto.
+  unfold overlap_test. intros (A1 & _) (A2 & _) H.
+  destruct (dsz0 e1) as [s1| | |] eqn:E1; cbn [bind] in H; try discriminate.
+  destruct (dsz0 e2) as [s2| | |] eqn:E2; cbn [bind] in H; try discriminate.
+  exists s1, s2. split; [reflexivity|]. split; [reflexivity|].
+  destruct (dsz0_inv _ _ ltac:(split; eassumption || lia) E1) as (S1 & W1) || idtac.
+  unfold end64 in H. rewrite !wrap64_small in H by lia. injection H as H.
+  intros (x & Hx1 & Hx2).
+  destruct (fa e1 >=? fa e2 + s2) eqn:Ea; destruct (fa e2 >=? fa e1 + s1) eqn:Eb; cbn in H; try discriminate; lia.
 Qed.
 
-Lemma inner_sound h tl :
-  ft h = T_IBB -> inner dsz t2 h tl = Ok false ->
-  forall e, In e tl -> ft e = t2 -> overlap_test dsz h e = Ok false.
+(** conversely, for non-empty ranges (an empty range strictly inside another one is reported) *)
+Lemma overlap_test_complete e1 e2 s1 s2 :
+  dsz0 e1 = Ok s1 -> dsz0 e2 = Ok s2 -> 0 < s1 -> 0 < s2 ->
+  ~ overlapZ (fa e1) s1 (fa e2) s2 -> overlap_test dsz0 e1 e2 = Ok false.
 Proof.
-  intros Th. induction tl as [|x tl IH]; intros H e He Te; [destruct He|].
-  cbn [inner] in H. destruct He as [<-|He].
-  - rewrite (proj2 (Z.eqb_eq _ _) Te) in H.
-    destruct (overlap_test_ok h x Th Te) as [b Hb]. rewrite Hb in *. cbn [bind] in H.
-    destruct b; [discriminate|reflexivity].
-  - destruct (ft x =? t2) eqn:Ex.
-    + apply Z.eqb_eq in Ex. destruct (overlap_test_ok h x Th Ex) as [b Hb]. rewrite Hb in H. cbn [bind] in H.
-      destruct b; [discriminate|]. apply IH; assumption.
-    + apply IH; assumption.
+  intros E1 E2 P1 P2 H. unfold overlap_test. rewrite E1, E2. cbn [bind].
+  destruct (dsz0_inv _ _ E1) as (A1 & S1 & W1). destruct (dsz0_inv _ _ E2) as (A2 & S2 & W2).
+  unfold end64. rewrite !wrap64_small by lia. f_equal.
+  destruct (fa e1 >=? fa e2 + s2) eqn:Ea; [reflexivity|].
+  destruct (fa e2 >=? fa e1 + s1) eqn:Eb; [reflexivity|].
+  exfalso. apply H. unfold overlapZ.
+  destruct (Z_le_gt_dec (fa e1) (fa e2)).
+  - exists (fa e2). lia.
+  - exists (fa e1). lia.
 Qed.
 
-Lemma inner_ok h tl : ft h = T_IBB -> exists b, inner dsz t2 h tl = Ok b.
+Lemma inner_benign h tl : benign (inner dsz0 t2 h tl).
 Proof.
-  intros Th. induction tl as [|x tl [b IH]]; cbn [inner]; [eauto|].
-  destruct (ft x =? t2) eqn:Ex; [|eauto].
-  apply Z.eqb_eq in Ex. destruct (overlap_test_ok h x Th Ex) as [c Hc]. rewrite Hc. cbn [bind].
-  destruct c; eauto.
+  induction tl as [|x tl IH]; cbn [inner]; [exact I|].
+  destruct (ft x =? t2); [|exact IH].
+  pose proof (overlap_test_benign h x) as B.
+  destruct (overlap_test dsz0 h x) as [[|]| | |]; cbn [bind benign] in *; try exact B; try exact I. exact IH.
 Qed.
 
-Lemma pairs_sound l :
-  pairs_check dsz t2 l = Ok false ->
+Lemma inner_sound h tl : inner dsz0 t2 h tl = Ok false ->
+  forall e, In e tl -> ft e = t2 -> overlap_test dsz0 h e = Ok false.
+Proof.
+  induction tl as [|x tl IH]; intros H e He Te; [destruct He|].
+  cbn [inner] in H. destruct (ft x =? t2) eqn:Ex.
+  - destruct (overlap_test dsz0 h x) as [[|]| | |] eqn:Ho; cbn [bind] in H; try discriminate.
+    destruct He as [<-|He]; [assumption|]. apply IH; assumption.
+  - destruct He as [<-|He]; [lia|]. apply IH; assumption.
+Qed.
+
+Lemma inner_complete h tl :
+  (forall e, In e tl -> ft e = t2 -> overlap_test dsz0 h e = Ok false) ->
+  inner dsz0 t2 h tl = Ok false.
+Proof.
+  induction tl as [|x tl IH]; intros H; cbn [inner]; [reflexivity|].
+  destruct (ft x =? t2) eqn:Ex.
+  - apply Z.eqb_eq in Ex. rewrite (H x (or_introl eq_refl) Ex). cbn [bind].
+    apply IH. intros e He. apply H. right. exact He.
+  - apply IH. intros e He. apply H. right. exact He.
+Qed.
+
+Lemma pairs_benign l : benign (pairs_check dsz0 t2 l).
+Proof.
+  induction l as [|h tl IH]; cbn [pairs_check]; [exact I|].
+  destruct (ft h =? T_IBB); [|exact IH].
+  pose proof (inner_benign h tl) as B.
+  destruct (inner dsz0 t2 h tl) as [[|]| | |]; cbn [bind benign] in *; try exact B; try exact I. exact IH.
+Qed.
+
+Lemma pairs_sound l : pairs_check dsz0 t2 l = Ok false ->
   forall l1 e1 l2 e2 l3, l = l1 ++ e1 :: l2 ++ e2 :: l3 ->
-    ft e1 = T_IBB -> ft e2 = t2 -> overlap_test dsz e1 e2 = Ok false.
+    ft e1 = T_IBB -> ft e2 = t2 -> overlap_test dsz0 e1 e2 = Ok false.
 Proof.
   induction l as [|h tl IH]; intros H l1 e1 l2 e2 l3 E T1 T2.
   - destruct l1; discriminate.
   - cbn [pairs_check] in H. destruct l1 as [|y l1]; cbn [app] in E; injection E as -> ->.
     + rewrite (proj2 (Z.eqb_eq _ _) T1) in H.
-      destruct (inner_ok e1 (l2 ++ e2 :: l3) T1) as [b Hb]. rewrite Hb in H. cbn [bind] in H.
-      destruct b; [discriminate|].
+      destruct (inner dsz0 t2 e1 (l2 ++ e2 :: l3)) as [[|]| | |] eqn:Hi; cbn [bind] in H; try discriminate.
       eapply inner_sound; eauto. apply in_or_app. right. left. reflexivity.
     + destruct (ft y =? T_IBB) eqn:Ey.
-      * apply Z.eqb_eq in Ey. destruct (inner_ok y (l1 ++ e1 :: l2 ++ e2 :: l3) Ey) as [b Hb].
-        rewrite Hb in H. cbn [bind] in H. destruct b; [discriminate|].
+      * destruct (inner dsz0 t2 y (l1 ++ e1 :: l2 ++ e2 :: l3)) as [[|]| | |] eqn:Hi; cbn [bind] in H; try discriminate.
         eapply IH; eauto.
       * eapply IH; eauto.
 Qed.
+
+Lemma pairs_complete l :
+  (forall l1 e1 l2 e2 l3, l = l1 ++ e1 :: l2 ++ e2 :: l3 ->
+     ft e1 = T_IBB -> ft e2 = t2 -> overlap_test dsz0 e1 e2 = Ok false) ->
+  pairs_check dsz0 t2 l = Ok false.
+Proof.
+  induction l as [|h tl IH]; intros H; cbn [pairs_check]; [reflexivity|].
+  assert (Htl : pairs_check dsz0 t2 tl = Ok false).
+  { apply IH. intros l1 e1 l2 e2 l3 E. apply (H (h :: l1) e1 l2 e2 l3). cbn [app]. rewrite E. reflexivity. }
+  destruct (ft h =? T_IBB) eqn:Eh; [|exact Htl].
+  apply Z.eqb_eq in Eh. rewrite (inner_complete h tl).
+  - cbn [bind]. exact Htl.
+  - intros e He Te. destruct (in_split _ _ He) as (l2 & l3 & ->).
+    apply (H [] h l2 e l3); [reflexivity|assumption|assumption].
+Qed.
+
+Lemma pairs_all_benign full l : benign (pairs_all dsz0 t2 full l).
+Proof.
+  induction l as [|h tl IH]; cbn [pairs_all]; [exact I|].
+  destruct (ft h =? T_IBB); [|exact IH].
+  pose proof (inner_benign h full) as B.
+  destruct (inner dsz0 t2 h full) as [[|]| | |]; cbn [bind benign] in *; try exact B; try exact I. exact IH.
+Qed.
+
+Lemma pairs_all_sound full l : pairs_all dsz0 t2 full l = Ok false ->
+  forall h e, In h l -> In e full -> ft h = T_IBB -> ft e = t2 -> overlap_test dsz0 h e = Ok false.
+Proof.
+  induction l as [|x tl IH]; intros H h e Hh He Th Te; [destruct Hh|].
+  cbn [pairs_all] in H. destruct (ft x =? T_IBB) eqn:Ex.
+  - destruct (inner dsz0 t2 x full) as [[|]| | |] eqn:Hi; cbn [bind] in H; try discriminate.
+    destruct Hh as [<-|Hh].
+    + eapply inner_sound; eauto.
+    + eapply IH; eauto.
+  - destruct Hh as [<-|Hh]; [lia|]. eapply IH; eauto.
+Qed.
+
+Lemma pairs_all_complete full l :
+  (forall h e, In h l -> In e full -> ft h = T_IBB -> ft e = t2 -> overlap_test dsz0 h e = Ok false) ->
+  pairs_all dsz0 t2 full l = Ok false.
+Proof.
+  induction l as [|x tl IH]; intros H; cbn [pairs_all]; [reflexivity|].
+  assert (Htl : pairs_all dsz0 t2 full tl = Ok false).
+  { apply IH. intros h e Hh. apply H. right. exact Hh. }
+  destruct (ft x =? T_IBB) eqn:Ex; [|exact Htl].
+  apply Z.eqb_eq in Ex. rewrite (inner_complete x full).
+  - cbn [bind]. exact Htl.
+  - intros e He Te. apply H; try assumption. left. reflexivity.
+Qed.
+
+Lemma covers_benign lo hi l : benign (covers dsz0 lo hi l).
+Proof.
+  induction l as [|e tl IH]; cbn [covers]; [exact I|].
+  destruct (ft e =? T_IBB); [|exact IH].
+  pose proof (dsz0_benign e) as B.
+  destruct (dsz0 e); cbn [bind benign] in *; try exact B.
+  destruct (_ && _); [exact I|exact IH].
+Qed.
+
+Lemma acm_above_benign l : benign (acm_above_4g dsz0 l).
+Proof.
+  induction l as [|e tl IH]; cbn [acm_above_4g]; [exact I|].
+  destruct (ft e =? T_SACM); [|exact IH].
+  pose proof (dsz0_benign e) as B.
+  destruct (dsz0 e); cbn [bind benign] in *; try exact B.
+  destruct (_ >? _); [exact I|exact IH].
+Qed.
 End FITProofs.
 
-Definition all_iv_ok (l : list fent) : Prop := forall e, In e l -> ibb_iv_ok e.
+Lemma verd_of_found_pass o : verd_of_found o = pass <-> o = Ok false.
+Proof. unfold verd_of_found, pass, fail, ierr; destruct o as [[|]| | |]; split; intros; congruence. Qed.
 
-Lemma verd_of_found_pass o : verd_of_found o = pass -> o = Ok false.
-Proof. unfold verd_of_found, pass, fail; destruct o as [[|]| | |]; intros; congruence. Qed.
-
-(** NoIBBOverlap is SOUND on the real data-size function: a pass means that no
-    two BIOS startup modules share a byte (no 64-bit wrap assumed). *)
-Theorem NoIBBOverlap_sound_partial : forall l, all_iv_ok l ->
-  no_ibb_overlap dsz_real l = pass ->
-  forall l1 e1 l2 e2 l3, l = l1 ++ e1 :: l2 ++ e2 :: l3 ->
-    ft e1 = T_IBB -> ft e2 = T_IBB ->
-    ~ overlapZ (fa e1) (fs e1 * 16) (fa e2) (fs e2 * 16).
-Proof.
-  intros l Hok H l1 e1 l2 e2 l3 E T1 T2.
-  apply verd_of_found_pass in H.
-  assert (D : forall e, ft e = T_IBB \/ ft e = T_IBB -> dsz_real e = Ok (fs e * 16)).
-  { intros e [He|He]; unfold dsz_real; rewrite He; reflexivity. }
-  eapply (overlap_test_sound dsz_real T_IBB D); eauto.
-  - apply Hok. subst l. apply in_or_app. right. left. reflexivity.
-  - apply Hok. subst l. apply in_or_app. right. right. apply in_or_app. right. left. reflexivity.
-  - eapply pairs_sound; eauto.
-Qed.
-
-(** ... but not complete: two ADJACENT modules are reported as overlapping. *)
-Definition fit_adjacent : list fent :=
-  [(7, 4293918720, 32768, 256); (7, 4294443008, 32768, 256)].  (* [FFF00000,FFF80000) [FFF80000,4G) *)
-
-Theorem NoIBBOverlap_adjacent_refuted :
-  exists l, all_iv_ok l /\
-    (forall e1 e2, In e1 l -> In e2 l -> e1 <> e2 -> ~ overlapZ (fa e1) (fs e1 * 16) (fa e2) (fs e2 * 16)) /\
-    no_ibb_overlap dsz_real l = fail.
-Proof.
-  exists fit_adjacent. split; [|split].
-  - intros e [<-|[<-|[]]]; unfold ibb_iv_ok, W64; cbn; lia.
-  - intros e1 e2 [<-|[<-|[]]] [<-|[<-|[]]] Hne (x & H1 & H2); cbn in *; try congruence; lia.
-  - vm_compute. reflexivity.
-Qed.
-
-(** 64-bit wrap of addr+size: nested modules pass. *)
-Definition fit_wrap64 : list fent :=
-  [(7, 18446744073709551584, 4, 256); (7, 18446744073709551600, 1, 256)].
-
-Theorem NoIBBOverlap_wrap64_refuted :
-  exists e1 e2, overlapZ (fa e1) (fs e1 * 16) (fa e2) (fs e2 * 16) /\
-    ft e1 = T_IBB /\ ft e2 = T_IBB /\ no_ibb_overlap dsz_real [e1; e2] = pass.
-Proof.
-  exists (7, 18446744073709551584, 4, 256), (7, 18446744073709551600, 1, 256).
-  split; [|repeat split; vm_compute; reflexivity].
-  exists 18446744073709551600. cbn. lia.
-Qed.
-
-(** NoBIOSACMOverlap on the real code: never a rejection.  Either no startup
-    ACM entry follows a BIOS startup module entry (pass, whatever the
-    addresses) or getFITDataSize panics. *)
-Lemma inner_real_acm h tl :
-  inner dsz_real T_SACM h tl = Ok false \/ inner dsz_real T_SACM h tl = Panic.
-Proof.
-  induction tl as [|x tl IH]; cbn [inner]; [left; reflexivity|].
-  destruct (ft x =? T_SACM) eqn:Ex; [|exact IH].
-  right. unfold overlap_test, dsz_real. rewrite Ex. reflexivity.
-Qed.
-
-Lemma pairs_real_acm l :
-  pairs_check dsz_real T_SACM l = Ok false \/ pairs_check dsz_real T_SACM l = Panic.
-Proof.
-  induction l as [|h tl IH]; cbn [pairs_check]; [left; reflexivity|].
-  destruct (ft h =? T_IBB); [|exact IH].
-  destruct (inner_real_acm h tl) as [-> | ->]; cbn [bind]; [exact IH | right; reflexivity].
-Qed.
-
-Theorem NoBIOSACMOverlap_never_rejects : forall l,
-  no_acm_overlap dsz_real l = pass \/ no_acm_overlap dsz_real l = VPanic.
-Proof.
-  intros l. unfold no_acm_overlap. destruct (pairs_real_acm l) as [-> | ->]; cbn; auto.
-Qed.
-
-(** with D18 repaired the check is sound for pairs listed IBB-first ... *)
-Theorem NoBIOSACMOverlap_sound_partial : forall l, all_iv_ok l ->
-  no_acm_overlap dsz_total l = pass ->
-  forall l1 e1 l2 e2 l3, l = l1 ++ e1 :: l2 ++ e2 :: l3 ->
-    ft e1 = T_IBB -> ft e2 = T_SACM ->
-    ~ overlapZ (fa e1) (fs e1 * 16) (fa e2) (fs e2 * 16).
-Proof.
-  intros l Hok H l1 e1 l2 e2 l3 E T1 T2.
-  apply verd_of_found_pass in H.
-  assert (D : forall e, ft e = T_IBB \/ ft e = T_SACM -> dsz_total e = Ok (fs e * 16)) by reflexivity.
-  eapply (overlap_test_sound dsz_total T_SACM D); eauto.
-  - apply Hok. subst l. apply in_or_app. right. left. reflexivity.
-  - apply Hok. subst l. apply in_or_app. right. right. apply in_or_app. right. left. reflexivity.
-  - eapply pairs_sound; eauto.
-Qed.
-
-(** ... and blind to an ACM listed BEFORE the module it overlaps (real code too). *)
-Theorem NoBIOSACMOverlap_order_refuted :
-  exists acm ibb, ft acm = T_SACM /\ ft ibb = T_IBB /\
-    overlapZ (fa ibb) (fs ibb * 16) (fa acm) (fs acm * 16) /\
-    no_acm_overlap dsz_total [acm; ibb] = pass /\ no_acm_overlap dsz_real [acm; ibb] = pass.
-Proof.
-  exists (2, 4293984256, 4096, 256), (7, 4293918720, 65536, 256).
-  split; [reflexivity|]. split; [reflexivity|]. split; [|split].
-  - exists 4293984256. unfold fa, fs. lia.
-  - vm_compute. reflexivity.
-  - vm_compute. reflexivity.
-Qed.
-
-(** BIOSACMIsBelow4G on the real code: a verdict only for FITs without ACM. *)
-Theorem BIOSACMIsBelow4G_real : forall l,
-  (count_type T_SACM l = 0 -> acm_below_4g dsz_real l = pass) /\
-  (count_type T_SACM l <> 0 -> acm_below_4g dsz_real l = VPanic).
-Proof.
-  intros l. unfold acm_below_4g, count_type.
-  induction l as [|e tl [IH1 IH2]]; cbn [acm_above_4g filter length]; [split; [reflexivity|intros H; exfalso; apply H; reflexivity]|].
-  destruct (ft e =? T_SACM) eqn:Ee.
-  - split; [cbn [length]; lia|]. intros _. unfold dsz_real. rewrite Ee. reflexivity.
-  - split; auto.
-Qed.
-
-Theorem BIOSACMIsBelow4G_total_exact : forall l,
-  (forall e, In e l -> 0 <= fa e /\ 0 <= fs e /\ fa e + fs e * 16 < W64) ->
-  (acm_below_4g dsz_total l = pass <->
-   forall e, In e l -> ft e = T_SACM -> fa e + fs e * 16 <= FOUR_GIB).
-Proof.
-  intros l. unfold acm_below_4g. induction l as [|e tl IH]; intros Hok.
-  - cbn. split; [intros _ e []|reflexivity].
-  - assert (IH' := IH (fun x Hx => Hok x (or_intror Hx))). clear IH.
-    cbn [acm_above_4g]. destruct (ft e =? T_SACM) eqn:Ee.
-    + unfold dsz_total at 1. cbn [bind]. unfold end64.
-      destruct (Hok e (or_introl eq_refl)) as (A & S & W). rewrite wrap64_small by lia.
-      destruct (fa e + fs e * 16 >? FOUR_GIB) eqn:Eg.
-      * cbn [verd_of_found]. unfold pass, fail. split; [discriminate|]. intros H.
-        apply Z.eqb_eq in Ee. specialize (H e (or_introl eq_refl) Ee). lia.
-      * rewrite IH'. split.
-        -- intros H x [<-|Hx] Tx; [lia|auto].
-        -- intros H x Hx Tx. apply H; [right; assumption|assumption].
-    + rewrite IH'. split.
-      * intros H x [<-|Hx] Tx; [lia|auto].
-      * intros H x Hx Tx. apply H; [right; assumption|assumption].
-Qed.
-
-(** IBBCovers*: exact against interval containment, for ALL tables whose
-    fields are in the range of their Go types, whenever lo is a 32-bit value. *)
-Definition fent_typed (e : fent) : Prop := 0 <= fa e < W64 /\ 0 <= fs e < 16777216.
+Lemma verd_of_found_benign o : benign o -> verd_of_found o <> VPanic.
+Proof. unfold verd_of_found, pass, fail, ierr; destruct o as [[|]| | |]; cbn; intros; try congruence; contradiction. Qed.
 
 Lemma verd_of_covers_pass o : verd_of_covers o = pass <-> o = Ok true.
-Proof. unfold verd_of_covers, pass, fail; destruct o as [[|]| | |]; split; intros; congruence. Qed.
+Proof. unfold verd_of_covers, pass, fail, ierr; destruct o as [[|]| | |]; split; intros; congruence. Qed.
 
-Lemma covers_exact : forall lo hi l, 0 <= lo < W32 ->
-  (forall e, In e l -> fent_typed e) ->
-  (covers dsz_real lo hi l = Ok true <->
-   exists e, In e l /\ ft e = T_IBB /\ containsZ (fa e) (fs e * 16) lo hi) /\
-  (exists b, covers dsz_real lo hi l = Ok b).
-Proof.
-  intros lo hi l Hlo. induction l as [|e tl IH]; intros Hty.
-  - cbn. split; [|eauto]. split; [discriminate|]. intros (e & [] & _).
-  - destruct IH as [IH [b IHb]]; [intros; apply Hty; right; assumption|].
-    cbn [covers]. destruct (ft e =? T_IBB) eqn:Et.
-    + assert (D : dsz_real e = Ok (fs e * 16)).
-      { unfold dsz_real. apply Z.eqb_eq in Et. rewrite Et. reflexivity. }
-      destruct (Hty e (or_introl eq_refl)) as (A & S).
-      destruct (fa e <=? lo) eqn:El.
-      * rewrite D. cbn [bind]. unfold end64. unfold W32, W64 in *. rewrite wrap64_small by (unfold W64; lia).
-        destruct (fa e + fs e * 16 >=? hi) eqn:Eh.
-        -- split; [|eauto]. split; [|reflexivity]. intros _. exists e. split; [left; reflexivity|].
-           split; [apply Z.eqb_eq; assumption|]. unfold containsZ. lia.
-        -- split; [|eauto]. rewrite IH. split.
-           ++ intros (x & Hx & R). exists x. split; [right; assumption|assumption].
-           ++ intros (x & [<-|Hx] & Tx & C); [unfold containsZ in C; lia|]. exists x. auto.
-      * split; [|eauto]. rewrite IH. split.
-        -- intros (x & Hx & R). exists x. split; [right; assumption|assumption].
-        -- intros (x & [<-|Hx] & Tx & C); [unfold containsZ in C; lia|]. exists x. auto.
-    + split; [|eauto]. rewrite IH. split.
-      * intros (x & Hx & R). exists x. split; [right; assumption|assumption].
-      * intros (x & [<-|Hx] & Tx & C); [lia|]. exists x. auto.
-Qed.
+Lemma verd_of_covers_benign o : benign o -> verd_of_covers o <> VPanic.
+Proof. unfold verd_of_covers, pass, fail, ierr; destruct o as [[|]| | |]; cbn; intros; try congruence; contradiction. Qed.
 
-Theorem IBBCoversResetVector_exact : forall l, (forall e, In e l -> fent_typed e) ->
-  (ibb_covers_rv dsz_real l = pass <->
-   exists e, In e l /\ ft e = T_IBB /\ containsZ (fa e) (fs e * 16) RESET_VECTOR (RESET_VECTOR + 4)).
-Proof.
-  intros l H. unfold ibb_covers_rv. rewrite verd_of_covers_pass.
-  apply covers_exact; [unfold RESET_VECTOR, W32; lia|assumption].
-Qed.
+(** the instance used throughout: the size function of the code over typed entries *)
+Definition typed_table (l : list fent) : Prop := forall e, In e l -> fent_typed e.
 
-Theorem IBBCoversFITVector_exact : forall l, (forall e, In e l -> fent_typed e) ->
-  (ibb_covers_fv dsz_real l = pass <->
-   exists e, In e l /\ ft e = T_IBB /\ containsZ (fa e) (fs e * 16) FIT_VECTOR (FIT_VECTOR + 4)).
-Proof.
-  intros l H. unfold ibb_covers_fv. rewrite verd_of_covers_pass.
-  apply covers_exact; [unfold FIT_VECTOR, W32; lia|assumption].
-Qed.
+(** [dsz mem] restricted to the entries of a typed table satisfies the section hypotheses;
+    entries outside the table never matter, so the restriction is harmless *)
+Definition dszT (mem : physmem) (l : list fent) (e : fent) : outcome Z := dsz mem e.
 
-Lemma covers_fail_iff lo hi l : 0 <= lo < W32 -> (forall e, In e l -> fent_typed e) ->
-  verd_of_covers (covers dsz_real lo hi l) = fail <-> covers dsz_real lo hi l <> Ok true.
+Lemma dsz_inv_in mem l : typed_table l -> forall e s, In e l -> dsz mem e = Ok s ->
+  0 <= fa e /\ 0 <= s /\ fa e + s < W64.
 Proof.
-  intros Hlo Hty. destruct (covers_exact lo hi l Hlo Hty) as [_ [b Hb]]. rewrite Hb.
-  destruct b; unfold verd_of_covers, pass, fail; split; congruence.
-Qed.
-
-(** IBBCoversFIT: exact as long as the table ends below 4 GiB (which HasFIT
-    establishes when it ran before) *)
-Theorem IBBCoversFIT_partial : forall fitptr l, 0 <= fitptr ->
-  fitptr + Z.of_nat (length l) * 16 < W32 ->
-  (forall e, In e l -> fent_typed e) ->
-  (ibb_covers_fit dsz_real fitptr l = pass <->
-   exists e, In e l /\ ft e = T_IBB /\
-     containsZ (fa e) (fs e * 16) fitptr (fitptr + Z.of_nat (length l) * 16)).
-Proof.
-  intros p l Hp Hend Hty. unfold ibb_covers_fit, fit_end32. rewrite verd_of_covers_pass.
-  rewrite (wrap32_small (Z.of_nat (length l) * 16)) by lia.
-  rewrite wrap32_small by lia.
-  apply covers_exact; [lia|assumption].
-Qed.
-
-Theorem IBBCoversFIT_wrap32_refuted :
-  exists fitptr l, (forall e, In e l -> fent_typed e) /\ 0 <= fitptr < W32 /\
-    ibb_covers_fit dsz_real fitptr l = pass /\
-    ~ exists e, In e l /\ ft e = T_IBB /\
-        containsZ (fa e) (fs e * 16) fitptr (fitptr + Z.of_nat (length l) * 16).
-Proof.
-  exists 4294967280, [(0, 2314885530818453087, 2, 256); (7, 4294901760, 16, 256)].
-  split; [|split; [|split]].
-  - intros e [<-|[<-|[]]]; unfold fent_typed, W64; cbn; lia.
-  - unfold W32; lia.
-  - vm_compute. reflexivity.
-  - intros (e & [<-|[<-|[]]] & T & C); cbn in T; try discriminate. unfold containsZ in C. cbn in C. lia.
+  intros Hty e s He H. destruct (dsz_ok_inv mem e s (Hty e He) H) as (S & W & _).
+  destruct (Hty e He) as (A & _). lia.
 Qed.
 
 (** * 2. TXT memory *)
